@@ -6,7 +6,8 @@ use num_complex::Complex64;
 use qvh::gatewire::*;
 use qvh::*;
 use quil_rs::expression::Expression;
-use quil_rs::instruction::{Gate, Qubit, QubitPlaceholder};
+use quil_rs::instruction::{Gate, Instruction, Qubit, QubitPlaceholder};
+use quil_rs::Program;
 use quil_rs::verif_hooks;
 
 fn gate_case(ctx: &mut Ctx, name: &str, params: Vec<Expression>, qubits: Vec<Qubit>, n: u64) {
@@ -23,6 +24,27 @@ fn gate_case(ctx: &mut Ctx, name: &str, params: Vec<Expression>, qubits: Vec<Qub
         let mut g = Gate { name: name.to_string(), parameters: params, qubits, modifiers: vec![] };
         unitary_result(g.to_unitary(n))
     });
+}
+
+/// `Program::to_unitary` (the property's second observable) on a body of instructions.
+fn progu_case(ctx: &mut Ctx, instrs: Vec<Instruction>, n: u64) {
+    let input = tagged("progu", vec![nat(n), tagged("instrs", instrs.iter().map(instr_to_sexp).collect())]);
+    ctx.case(input, move || {
+        let mut p = Program::new();
+        for i in instrs {
+            p.add_instruction(i);
+        }
+        match p.to_unitary(n) {
+            Ok(m) => tagged("ok", vec![mat_to_sexp(&m)]),
+            Err(quil_rs::program::ProgramError::UnsupportedForUnitary(_)) => tagged("err", vec![atom("unsupported")]),
+            Err(quil_rs::program::ProgramError::GateError(e)) => tagged("err", vec![atom(format!("gate-{}", gate_error_kind(&e)))]),
+            Err(_) => tagged("err", vec![atom("other")]),
+        }
+    });
+}
+
+fn plain(name: &str, params: Vec<Expression>, qs: &[u64]) -> Instruction {
+    Instruction::Gate(Gate { name: name.to_string(), parameters: params, qubits: fixed(qs), modifiers: vec![] })
 }
 
 fn fixed(qs: &[u64]) -> Vec<Qubit> {
@@ -73,6 +95,13 @@ fn run(ctx: &mut Ctx) {
     gate_case(ctx, "CNOT", vec![], fixed(&[0]), 3); // arity mismatch: lifted as a 2-qubit gate at start 0
     gate_case(ctx, "X", vec![], fixed(&[0, 2]), 3);
     gate_case(ctx, "X", vec![], vec![], 1); // Gate::new would reject; the struct literal does not
+    // exact multiples of 2π: RX/RY/RZ have period 4π, so these are −I (a seeded "identity fast path" in
+    // Program::to_unitary skipping `x.re % TAU == 0.0` gates was missed before these were added)
+    progu_case(ctx, vec![plain("RZ", vec![real(2.0 * std::f64::consts::PI)], &[0])], 1);
+    progu_case(ctx, vec![plain("RX", vec![real(-2.0 * std::f64::consts::PI)], &[1])], 2);
+    progu_case(ctx, vec![Instruction::Gate(parse_gate("RY", "2*pi", &[0]))], 1);
+    progu_case(ctx, vec![plain("H", vec![], &[0]), Instruction::Gate(parse_gate("RZ", "-2*pi", &[0])), plain("X", vec![], &[0])], 1);
+    gate_case(ctx, "RZ", vec![real(2.0 * std::f64::consts::PI)], fixed(&[0]), 1);
 
     // ---- 2. every table gate × angles × every injective placement into n ≤ 5
     let mut rng = ctx.rng(14);
@@ -165,6 +194,34 @@ fn run(ctx: &mut Ctx) {
             let params: Vec<Expression> = (0..np).map(|i| real(angle(&mut rng, 12 + i))).collect();
             let qs = random_placement(&mut rng, k, n);
             gate_case(ctx, name, params, fixed(&qs), n);
+        }
+    }
+
+    // ---- 6. exact special angles, written as f64 products of PI and as Quil text, for every parameterised table
+    // gate, through Gate::to_unitary AND Program::to_unitary (single-gate program, inside a longer program)
+    let mut rng = ctx.rng(18);
+    for (name, k) in PARAM_GATES {
+        for (value, text) in exact_angles() {
+            for from_text in [false, true] {
+                let tight: Vec<u64> = (0..k as u64).rev().collect();
+                let n2 = k as u64 + 1;
+                let loose = random_placement(&mut rng, k, n2);
+                for (qs, n) in [(tight, k as u64), (loose, n2)] {
+                    let g = if from_text {
+                        parse_gate(name, text, &qs)
+                    } else {
+                        Gate { name: name.to_string(), parameters: vec![real(value)], qubits: fixed(&qs), modifiers: vec![] }
+                    };
+                    gate_case(ctx, name, g.parameters.clone(), g.qubits.clone(), n);
+                    progu_case(ctx, vec![Instruction::Gate(g.clone())], n);
+                    let last = n - 1;
+                    progu_case(
+                        ctx,
+                        vec![plain("H", vec![], &[qs[0]]), Instruction::Gate(g), plain("RX", vec![real(0.3)], &[last])],
+                        n,
+                    );
+                }
+            }
         }
     }
 }
